@@ -92,6 +92,9 @@ func (e *Engine) runBlock(st *State, fr *Frame, b *ssa.BasicBlock, pred *ssa.Bas
 		if e.solver != nil && !e.solver.feasible(e, st) {
 			return // infeasible: unwinding assertion holds
 		}
+		if e.dropAtBound {
+			return // bounded check (flag bounded=..., flag unwind=drop): longer runs are outside the stated bound
+		}
 		st.incomplete = fmt.Sprintf("loop bound %d exceeded in %s block %d (%s)", e.loopBound, fr.fn.String(), b.Index, e.pos(b.Instrs[0].Pos()))
 		e.endPath(st)
 		return
